@@ -4,8 +4,8 @@ import json, os, subprocess, sys, time, shutil, hashlib, re
 VERIF = os.path.dirname(os.path.dirname(os.path.abspath(__file__)))
 REPO = os.environ.get("VERIF_REPO", "/repo")
 BUILD = os.path.join(VERIF, "build")
-EVIDENCE = os.path.join(VERIF, "evidence")
-REPLAYS = os.path.join(VERIF, "replays")
+EVIDENCE = os.environ.get("VERIF_EVIDENCE_DIR") or (os.path.join(VERIF, "evidence") if REPO == "/repo" else os.path.join(BUILD, "evidence_scratch"))
+REPLAYS = os.path.join(VERIF, "replays") if REPO == "/repo" else os.path.join(BUILD, "replays_scratch")
 SRC = os.path.join(REPO, "derive-ex", "src")
 GUARD = "frozenlib_derive_ex_verif"
 NCPU = os.cpu_count() or 4
